@@ -80,8 +80,20 @@ TREE_RULE = ("suite tree: every document with <= 3 (quick) / 4 (thorough) nodes 
              "assign x 3-4 values / write-through, plus the every-node-addressable sweep per document; then seeded random documents (depth <= 5, fan-out <= 4) with shape-following and perturbed pointers; "
              "non-trivial = non-root pointer; distinct = distinct case lines")
 
+REGEN_TECHNIQUE = ("Coq 8.16 theorems over BOTH (a) a model REGENERATED on every run from the current Rust source by a translator (tools/rs2v.py -> coq/Generated/Scan*.v; "
+                   "the property is proved of the regenerated functions, via machine-checked equality with the hand-written model, for all inputs) AND (b) the hand-written executable "
+                   "Gallina model tied to the code by the per-run differential correspondence check (model extracted to OCaml vs the real crate) + model-independent property oracles")
+
+def regen_note(fns):
+    return (" REGENERATED-MODEL TIE: " + fns + " are re-translated from /repo's current source into Gallina on every run (tools/rs2v.py) and the theorems of "
+            "coq/Properties/<id>_src.v are re-proved of the regenerated definitions, for all inputs; an edit to one of these functions that breaks them breaks the proof stage even when "
+            "no explored input shows a difference (reported with the failing input the search finds, else `no-failing-input-found`).")
+
 PROPERTIES = {
     "C01": {
+        "extra_theorem_files": ["Properties/C01_utf8.v"],
+        "level_suffix": " UTF-8 LAYER (Properties/C01_utf8.v): with utf8_valid = the Unicode Standard's Table 3-7 (Rust's str validity), every constructor, accessor, slicer, two-pointer operation and every "
+                        "finite history of the seven mutators maps well-formed UTF-8 to well-formed UTF-8 - the logical precondition of each internal from_utf8_unchecked / new_unchecked (their UB-freedom itself is not covered).",
         "runs": [{"suite": s_} for s_ in ("token", "parse", "tokens", "buf", "slice", "prefix", "conv")],
         "level_text": "Proved in Coq, one clause per safe public function family (constructors and the eight doors, Token::new/from_encoded/into_owned/from(integer), both Deserialize impls, from_tokens/From<Token>/From<usize>; "
                       "tokens/components/front/back/get/split_front/split_back/parent/split_at and every range form through the (Bound,Bound) impl; strip_prefix/strip_suffix/intersection/concat/with_leading/trailing_token): "
@@ -142,6 +154,9 @@ PROPERTIES = {
         "rule": TREE_RULE + "; for C15 the failing resolve / resolve_mut / assign calls",
     },
     "C12": {
+        "regen": {"groups": ["PtrOps", "Slice"]},
+        "technique": REGEN_TECHNIQUE,
+        "level_suffix": regen_note("all eight PointerIndex::get impls of src/pointer/slice.rs (usize, the six range types, (Bound, Bound)) and Pointer::split_front / split_at / split_back / parent (src/pointer.rs)"),
         "runs": [{"suite": "slice", "profile": "debug"}, {"suite": "slice", "profile": "release"}, {"suite": "tokens"}],
         "level_text": "Proved in Coq for every token list of slash-free tokens (hence every valid pointer) and ALL bounds over N (up to and beyond usize::MAX): each of the five token-counting loops of slice.rs is characterised "
                       "by a loop lemma generalised over its counters; get(a..b) is Some iff a<=b<=n and a<n, a.. iff a<n, ..b iff b<=n, a..=b iff a<=b<n, ..=b iff b<n, .. always (the crate's rule, e.g. n..n is None); the nine Bound "
@@ -180,6 +195,9 @@ PROPERTIES = {
                 "replace x {0,1,usize::MAX} x 3 tokens, clear) from {root, /, /a/~0/}; random histories up to 60 steps; non-trivial = at least two steps; distinct = distinct case lines",
     },
     "C13": {
+        "regen": {"groups": ["PtrOps"]},
+        "technique": REGEN_TECHNIQUE,
+        "level_suffix": regen_note("Pointer::strip_prefix, strip_suffix, starts_with, ends_with, intersection (src/pointer.rs)"),
         "runs": [{"suite": "prefix"}],
         "level_text": "Proved in Coq for all pairs (triples) of valid pointers: starts_with (never panics) iff the token list of q is a leading sub-list of p's; strip_prefix = Some v iff the same, with v the pointer of the "
                       "remaining tokens, valid, q.concat(v) = p and v a suffix view of p; strip_suffix / ends_with the mirror image with root treated as documented; intersection = pointer of the longest common leading "
@@ -190,6 +208,9 @@ PROPERTIES = {
                 "non-trivial = both pointers non-root; distinct = distinct case lines",
     },
     "C19": {
+        "regen": {"groups": ["Token"]},
+        "technique": "MEASUREMENT (counting global allocator) for the allocation counts; " + REGEN_TECHNIQUE + " for the Cow-variant logic",
+        "level_suffix": regen_note("Token::new, Token::decoded, Token::from_encoded (src/token.rs) -- the Cow variant each builds"),
         "runs": [{"suite": "alloc", "profile": "debug"}, {"suite": "alloc", "profile": "release"}],
         "level_text": "PARTIAL BY NATURE (DESIGN 6/C19, 9): heap allocation is a runtime fact and is MEASURED, not proved - a counting #[global_allocator] in the harness counts allocations "
                       "around each listed operation (parse ok/err, from_encoded, tokens/components iteration, first/last/get, every split, parent, all range forms, strip_prefix/suffix, starts/ends_with, "
@@ -220,16 +241,20 @@ PROPERTIES = {
                 "and random integers of every bit width; non-trivial = text with an escape or inner '/', or a multi-digit integer; distinct = distinct case lines",
     },
     "C04": {
-        "runs": [{"suite": "tokens"}],
+        "runs": [{"suite": "tokens"}, {"suite": "slice", "filter": lambda c: c.startswith("get "), "nontrivial": lambda c: True}],
         "level_text": "Proved in Coq for all lists of byte strings and all valid pointer texts: the transliterated from_tokens (fold of pushes through Token::new) equals the flat-map spec; "
                       "decoded tokens of from_tokens(L) are L, count = |L|; from_tokens(tokens(p)) = p for valid p; from_tokens is injective (text and list determine each other); "
                       "front/back/get/components/is_root/count/split_front/split_back/parent - modelled through split_once/rsplit_once/find as in the code - agree with the list; "
                       "with_trailing_token/with_leading_token/concat are snoc/cons/append; integer tokens are their decimal spelling and valid. "
                       "Tie: every token list over 10 adversarial tokens up to length 4/5 and random lists up to 2000 tokens, build/iterate/accessors compared with the model and with a reference tokeniser.",
         "rule": "suite tokens: every list over {\"\", a, ~, /, ~0, ~1, 01, -, é, a/b} up to length 4 (quick) / 5 (thorough) through from_tokens (ftok) and, spelled as a pointer, through all accessors (acc); "
-                "with_trailing/leading_token on the short ones; random lists up to 2000 tokens; non-trivial = at least two tokens or an escape; distinct = distinct case lines",
+                "with_trailing/leading_token on the short ones; random lists up to 2000 tokens; plus the get(usize) cases of suite slice (every index in {0..5, usize::MAX-1, usize::MAX} "
+                "on every pointer of that suite, debug build, panics observed); non-trivial = at least two tokens or an escape; distinct = distinct case lines",
     },
     "C16": {
+        "regen": {"groups": ['Index']},
+        "technique": REGEN_TECHNIQUE,
+        "level_suffix": regen_note('Index::for_len, for_len_incl, for_len_unchecked (src/index.rs; Index::from_str is an iterator chain over chars and is modelled by hand only)'),
         "runs": [{"suite": "index", "profile": "debug"}, {"suite": "index", "profile": "release"}],
         "level_text": "Proved in Coq for all byte strings and all naturals: index_from_str s = Ok(Num n) iff n <= usize::MAX and s is the canonical decimal spelling of n (bridge to the stdlib's "
                       "N.to_uint / N.of_uint round trip), Ok(Next) iff s = \"-\"; parse after Display and Display after parse are identities; each rejection is characterised by an iff "
@@ -240,6 +265,9 @@ PROPERTIES = {
                 "every (index,length) pair over {0,1,2,MAX-1,MAX} and Next, random 1-26 digit strings with injected junk; debug and release; non-trivial = non-empty text; distinct = distinct case lines",
     },
     "C02": {
+        "regen": {"groups": ['Pointer']},
+        "technique": REGEN_TECHNIQUE,
+        "level_suffix": regen_note('validate and validate_bytes (src/pointer.rs)'),
         "runs": [{"suite": "parse"}],
         "level_text": "Proved in Coq for all byte strings: the transliterated validate/validate_bytes scanner (with its skip-ahead) accepts exactly the grammar "
                       "(empty, or leading '/' and every '~' followed by '0'/'1'), equivalently '/'-joined valid tokens; each of the eight door models returns that "
@@ -250,6 +278,9 @@ PROPERTIES = {
                 "non-trivial = contains '~' or an inner '/'; distinct = distinct case lines",
     },
     "C14": {
+        "regen": {"groups": ['Pointer']},
+        "technique": REGEN_TECHNIQUE,
+        "level_suffix": regen_note('validate, validate_bytes and the ParseError accessors offset / pointer_offset / source_offset / complete_offset / invalid_encoding_len / is_no_leading_slash / is_invalid_encoding (src/pointer.rs)'),
         "runs": [{"suite": "parse"}],
         "level_text": "Proved in Coq for all byte strings: NoLeadingSlash iff the non-empty input does not start with '/'; for InvalidEncoding the two loop counters are carried "
                       "through the skip-ahead as an explicit invariant, giving complete_offset = index of the first '~' not followed by '0'/'1', pointer_offset = the nearest '/' at or before it, "
@@ -259,6 +290,9 @@ PROPERTIES = {
         "rule": "as C02 (suite parse); for every rejected string the accessors, the report and the label numbers are compared with the model and with an independent first-offence finder",
     },
     "C03": {
+        "regen": {"groups": ['Token']},
+        "technique": REGEN_TECHNIQUE,
+        "level_suffix": regen_note('Token::from_encoded, Token::new, Token::decoded, Token::encoded, into_owned, to_owned (src/token.rs)'),
         "runs": [{"suite": "token"}],
         "level_text": "Proved in Coq for all byte strings, no length bound: the transliterated Token::new equals the escape spec, decoded(new(s)) = s, "
                       "from_encoded accepts exactly the valid tokens, decoded = unescape and encode(decoded e) = e on valid tokens (bijection), and every "
@@ -268,3 +302,18 @@ PROPERTIES = {
                 "then seeded random long strings; non-trivial = text contains '~' or '/'; distinct = distinct case lines",
     },
 }
+
+
+# every suite is run against the debug AND the release build of the harness (overflow checks, debug_assert! and
+# other profile-dependent behaviour differ); the model's answers are cached per case line, so the second run costs
+# only the execution of the real crate
+for _pid, _cfg in PROPERTIES.items():
+    if _pid == "C20":
+        continue
+    _runs = _cfg["runs"]
+    _have = {(r["suite"], r.get("profile", "debug")) for r in _runs}
+    for r in list(_runs):
+        if r.get("profile", "debug") == "debug" and (r["suite"], "release") not in _have:
+            r2 = dict(r); r2["profile"] = "release"
+            _runs.append(r2)
+            _have.add((r["suite"], "release"))
